@@ -275,7 +275,9 @@ type t6Env struct {
 	t   *rm.Table
 }
 
-// t6Open builds the dataset; split: 0 memory, 1 disk, 2 split. Every cell gets
+// t6Open builds the dataset; split: 0 memory, 1 disk, 2 split, 3 altered (half of the points, a flush, then
+// ApplySchema puts a new field z0 = SUM(zz) in front of the others and the remaining points feed it as well: the
+// stored columns of one row then cover different periods). Every cell gets
 // one point (two for the first cell, to exercise re-aggregation of AVG).
 func t6Open(c interface {
 	Incomplete(string)
@@ -288,8 +290,12 @@ func t6Open(c interface {
 	}
 	env := &t6Env{db: db, t: t}
 	val := 1.0
+	altered := false
 	add := func(cell t6Cell, off int64) bool {
 		p := &rm.Pt{TS: int64(cell.P)*sec - off, Dims: t6Dims(cell.K), Vals: D("a", val)}
+		if altered {
+			p.Vals["zz"] = 1.0
+		}
 		if err := db.Insert("s", toPoint(p)); err != nil {
 			c.Incomplete("insert: " + err.Error())
 			db.Close()
@@ -309,8 +315,19 @@ func t6Open(c interface {
 		if i == 0 && !add(cell, sec/4) {
 			return nil
 		}
-		if split == 2 && i == (len(ordered)-1)/2 {
+		if (split == 2 || split == 3) && i == (len(ordered)-1)/2 {
 			db.FlushAll()
+		}
+		if split == 3 && i == (len(ordered)-1)/2 {
+			t2 := t6Table()
+			t2.Fields = append([]rm.Field{{Name: "z0", Expr: rm.Agg{Kind: "SUM", Val: "zz"}}}, t2.Fields...)
+			if err := db.Alter(dbdrv.Config{Tables: []dbdrv.TableDef{defOf(t2)}}); err != nil {
+				c.Incomplete("alter: " + err.Error())
+				db.Close()
+				return nil
+			}
+			env.t = t2
+			altered = true
 		}
 	}
 	if split == 1 {
